@@ -54,6 +54,21 @@ PROPS["C08"] = dict(
     design="DESIGN.md §4 C08",
 )
 
+PROPS["C13"] = dict(
+    technique="static analysis: dominance / post-dominance of notification call sites around the result-consuming loop in each local executor entry; common-origin (def-use) of num_tasks and the task iterable; accumulation coverage",
+    text=(
+        "Decides, for SingleThreadedExecutor.execute_dag and both modes of async_map_dag, that exactly one "
+        "operation-start site dominates and one operation-end site post-dominates the loop that consumes an "
+        "operation's results, that exactly one task-end dispatch sits inside that loop and none outside, that "
+        "compute start/end bracket the executor call, that num_tasks and the task iterable of every "
+        "PrimitiveOperation construction have one origin, that the plan total sums every primitive op, and "
+        "(with MAP-ONCE-1) that the parallel map emits at most one result per input. Dominance facts cover "
+        "every DAG, executor option and completion order; tests observe a handful of runs."
+    ),
+    note="Third-party executors (lithops, dask, ray, modal, spark, coiled) are out of scope of this property; ThreadsExecutor/ProcessesExecutor reach async_map_dag, which is analysed.",
+    design="DESIGN.md §4 C13",
+)
+
 CLAIMED = sorted(PROPS)
 
 NOT_APPLICABLE = {
